@@ -1,6 +1,7 @@
 package main
 
 import (
+	"sort"
 	"fmt"
 	"strings"
 
@@ -13,7 +14,7 @@ func init() {
 	register(&Check{
 		ID:  "C10",
 		Run: runC10,
-		Explanation: "Decides the code-shape clauses of cancellation: (R1 propagation) in every function of the read path (pkg/pdfcpu, pkg/pdfcpu/model) that has a context.Context parameter, every call to a function that takes a context passes a value derived from that parameter — context.Background()/TODO() appear only in the documented non-context entry points; (R2 identity of the error) an error obtained from a context-taking callee or from c.Err() is handed on unchanged or wrapped with %w — a fmt.Errorf that renders it with %v/%s (or replaces it by a sentinel) breaks errors.Is(err, ctx.Err()) and is rejected; every `if err := c.Err(); err != nil` returns that error; (R3 polling) every loop in such a function whose body calls a context-taking function of the module polls c.Err() inside the loop on every iteration path before that call (facts are killed at loop headers, so a poll hoisted in front of the loop does not count), unless the callee itself polls before doing any work (always-summary). R2 also requires that on the edge where the error of a context-taking callee is non-nil, every return reached before the context is observed again (immediate successor of the edge and blocks dominated by it) returns an error that depends on the callee's error (itself, %w, errors.Join) or nil (deliberate repair); a different sentinel there renames a cancellation. NOT decided: the latency bound (timing), observation of a pre-cancelled context before any work.",
+		Explanation: "Decides the code-shape clauses of cancellation: (R1 propagation) in every function of the read path (pkg/pdfcpu, pkg/pdfcpu/model) that has a context.Context parameter, every call to a function that takes a context passes a value derived from that parameter — context.Background()/TODO() appear only in the documented non-context entry points; (R2 identity of the error) an error obtained from a context-taking callee or from c.Err() is handed on unchanged or wrapped with %w — a fmt.Errorf that renders it with %v/%s (or replaces it by a sentinel) breaks errors.Is(err, ctx.Err()) and is rejected; every `if err := c.Err(); err != nil` returns that error; (R3 polling) every loop in such a function whose body calls a context-taking function of the module polls c.Err() inside the loop on every iteration path before that call (facts are killed at loop headers, so a poll hoisted in front of the loop does not count), unless the callee itself polls before doing any work (always-summary). R2 also requires that on the edge where the error of a context-taking callee is non-nil, every return reached before the context is observed again (immediate successor of the edge and blocks dominated by it) returns an error that depends on the callee's error (itself, %w, errors.Join) or nil (deliberate repair); a different sentinel there renames a cancellation. (R3, extended) in every context-taking function of pkg/pdfcpu and pkg/pdfcpu/model, a loop that does work (a non-builtin call that does not itself take the context) cannot go round without passing c.Err() or a context-taking call; one triaged loop (the stream-keyword walk in buffer, linear since repair b8fff5e6). NOT decided: the latency bound (timing), observation of a pre-cancelled context before any work.",
 		Rules: []string{
 			"C10.R1 WMC/flow: the caller's context is what callees receive",
 			"C10.R2 flow: cancellation errors keep their identity (returned as-is or %w)",
@@ -108,6 +109,7 @@ func runC10(c *Ctx) {
 	r.MinInst["C10.R1"] = 30
 	r.MinInst["C10.R2"] = 10
 	r.MinInst["C10.R3"] = 5
+	checkWorkingLoopsPoll(c)
 	pollsFirstMemo = map[*ssa.Function]int{}
 	inScope := func(fid string) bool {
 		return strings.HasPrefix(fid, "pkg/pdfcpu.") || strings.HasPrefix(fid, "pkg/pdfcpu/model.")
@@ -533,4 +535,158 @@ func checkCalleeErrorKept(c *Ctx, fn *ssa.Function) {
 			}
 		}
 	})
+}
+
+func init() {
+	extraDebug["c10loops"] = func(p *Program) {
+		for _, fn := range p.Funcs {
+			if !isSubject(fn) || !takesContext(fn) {
+				continue
+			}
+			for _, l := range naturalLoops(fn) {
+				polls, ctxCall, calls := false, false, 0
+				for b := range l.blocks {
+					for _, in := range b.Instrs {
+						call, ok := in.(*ssa.Call)
+						if !ok {
+							continue
+						}
+						if call.Call.IsInvoke() && call.Call.Method.Name() == "Err" && isContextType(call.Call.Value) {
+							polls = true
+							continue
+						}
+						if _, isB := call.Call.Value.(*ssa.Builtin); isB {
+							continue
+						}
+						calls++
+						if g := staticCallee(call); g != nil && takesContext(g) {
+							ctxCall = true
+						}
+					}
+				}
+				fmt.Printf("%-70s %s polls=%v ctxcall=%v calls=%d\n", FuncID(fn), p.Pos(lastPos(l.header)), polls, ctxCall, calls)
+			}
+		}
+	}
+}
+
+// ---------------- C10.R3b (round 3 of seeding): every working loop of a context-taking reader polls ----------------
+
+// c10LoopTriage: loops in context-taking functions that neither poll nor hand the context on, with the reason.
+// Keyed by function and the callees inside the loop (not by line).
+var c10LoopTriage = map[string]string{
+	"pkg/pdfcpu.buffer|keywordStreamRightAfterEndOfDict,lastStreamMarker": "walks the stream keywords of the object buffer that the enclosing (polling) loop just grew: linear in that buffer since each step looks only at what precedes the keyword (repaired, b8fff5e6)",
+}
+
+func checkWorkingLoopsPoll(c *Ctx) {
+	p, r := c.P, c.R
+	n := 0
+	for _, fn := range p.Funcs {
+		if !isSubject(fn) || !takesContext(fn) || fn.Pkg == nil {
+			continue
+		}
+		pp := fn.Pkg.Pkg.Path()
+		if pp != modPath+"/pkg/pdfcpu" && pp != modPath+"/pkg/pdfcpu/model" {
+			continue
+		}
+		fid := FuncID(fn)
+		k := 0
+		for _, l := range naturalLoops(fn) {
+			gates := map[*ssa.BasicBlock]bool{}
+			var callees []string
+			for b := range l.blocks {
+				for _, in := range b.Instrs {
+					call, ok := in.(*ssa.Call)
+					if !ok {
+						continue
+					}
+					if call.Call.IsInvoke() && call.Call.Method.Name() == "Err" && isContextType(call.Call.Value) {
+						gates[b] = true
+						continue
+					}
+					if _, isB := call.Call.Value.(*ssa.Builtin); isB {
+						continue
+					}
+					g := staticCallee(call)
+					if g != nil && takesContext(g) {
+						gates[b] = true
+						continue
+					}
+					if g != nil {
+						callees = append(callees, g.Name())
+					} else {
+						callees = append(callees, "dynamic call")
+					}
+				}
+			}
+			callees = dedupStrings(callees)
+			sort.Strings(callees)
+			if len(callees) == 0 && len(gates) == 0 {
+				continue // no call at all: a plain in-memory loop
+			}
+			k++
+			n++
+			construct := fmt.Sprintf("loop{%s}", strings.Join(callees, ","))
+			pos := p.Pos(lastPos(l.header))
+			// is there a way round the loop that does work (a non-context call) and passes no gate?
+			work := map[*ssa.BasicBlock]bool{}
+			for b := range l.blocks {
+				if gates[b] {
+					continue
+				}
+				for _, in := range b.Instrs {
+					if call, ok := in.(*ssa.Call); ok {
+						if _, isB := call.Call.Value.(*ssa.Builtin); !isB {
+							work[b] = true
+						}
+					}
+				}
+			}
+			gateFree := func(from []*ssa.BasicBlock, fwd bool) map[*ssa.BasicBlock]bool {
+				seen := map[*ssa.BasicBlock]bool{}
+				stack := append([]*ssa.BasicBlock{}, from...)
+				for len(stack) > 0 {
+					b := stack[len(stack)-1]
+					stack = stack[:len(stack)-1]
+					if seen[b] || gates[b] || !l.blocks[b] {
+						continue
+					}
+					seen[b] = true
+					if fwd {
+						for _, s := range b.Succs {
+							if s != l.header {
+								stack = append(stack, s)
+							}
+						}
+					} else {
+						if b != l.header {
+							stack = append(stack, b.Preds...)
+						}
+					}
+				}
+				return seen
+			}
+			skips := false
+			if !gates[l.header] {
+				fromHeader := gateFree([]*ssa.BasicBlock{l.header}, true)
+				toHeader := gateFree(l.backs, false)
+				for b := range work {
+					if fromHeader[b] && toHeader[b] {
+						skips = true
+					}
+				}
+			}
+			switch {
+			case !skips:
+				r.OK("C10.R3", fid, construct, pos, "every way round this loop polls c.Err() or calls a function that takes the context", true)
+			case c10LoopTriage[fid+"|"+strings.Join(callees, ",")] != "":
+				r.OK("C10.R3", fid, construct, pos, "triaged: "+c10LoopTriage[fid+"|"+strings.Join(callees, ",")], true)
+			default:
+				r.Bad("C10.R3", fid, construct, pos, "a loop of a context-taking reader does work ("+strings.Join(callees, ", ")+") and can go round without polling c.Err() or handing the context to a callee: after cancellation it runs to the end of its input")
+			}
+		}
+	}
+	if n < 8 {
+		r.Bad("C10.R3", "pkg/pdfcpu", "working loops", "", fmt.Sprintf("UNRESOLVED-ANCHOR: only %d working loops found in context-taking readers (13 on the pinned tree)", n))
+	}
 }
